@@ -5,6 +5,7 @@ package mimetype
 import (
 	"encoding/binary"
 	"fmt"
+	"strings"
 	"testing"
 
 	"pgregory.net/rapid"
@@ -320,6 +321,31 @@ func TestVerif_C03(t *testing.T) {
 					x = append([]byte(rapid.SampledFrom([]string{"VF1:", "VF2:", "VF"}).Draw(t, "magic")), x...)
 				}
 				var exts []vfExt
+				if rapid.IntRange(0, 14).Draw(t, "deeptree") == 0 {
+					// a trunk of 3-7 levels, then two sibling branches whose descendants are registered
+					// alternately; the input takes branch a or b
+					parent := rapid.SampledFrom([]string{"", "text/plain", "application/zip"}).Draw(t, "trunkroot")
+					k := 0
+					add := func(parent, arg, tag string) string {
+						e := vfExt{Parent: parent, Mime: fmt.Sprintf("application/x-verif-%d%s", k, tag), Ext: fmt.Sprintf(".vf%d%s", k, tag), Pred: vfPred{Kind: "contains", Arg: vfB(arg)}}
+						k++
+						exts = append(exts, e)
+						return e.Mime
+					}
+					for i, n := 0, rapid.IntRange(3, 7).Draw(t, "trunk"); i < n; i++ {
+						parent = add(parent, "VF", "")
+					}
+					pa, pb := add(parent, "VFa", "a"), add(parent, "VFb", "b")
+					for i, n := 0, rapid.IntRange(1, 4).Draw(t, "branchdepth"); i < n; i++ {
+						pa, pb = add(pa, "VFa", "a"), add(pb, "VFb", "b")
+					}
+					body := rapid.SampledFrom([]string{"text body", "PK\x03\x04rest", "{\"a\":1}"}).Draw(t, "dtbody")
+					x = []byte(rapid.SampledFrom([]string{"VFa ", "VFb ", "VF ", ""}).Draw(t, "branch") + body)
+					if strings.HasPrefix(body, "PK") {
+						x = append([]byte(body), x[:len(x)-len(body)]...)
+					}
+					return c03Case{X: x, Limit: 0, Exts: exts}
+				}
 				if rapid.IntRange(0, 9).Draw(t, "deepchain") == 0 {
 					parent := rapid.SampledFrom([]string{"", "text/plain", "application/zip"}).Draw(t, "chainroot")
 					for i, n := 0, rapid.IntRange(6, 30).Draw(t, "chaindepth"); i < n; i++ {
